@@ -590,6 +590,12 @@ func (ca *clusterAdmin) DeleteRecords(topic string, partitionOffsets map[int32]i
 						errs = append(errs, errors.New(deleteRecordsResponsePartition.Err.Error()))
 					}
 				}
+				for _, p := range partitions {
+					if _, ok := deleteRecordsResponseTopic.Partitions[p]; !ok {
+						// the broker said nothing about a partition we asked it to truncate
+						errs = append(errs, ErrIncompleteResponse)
+					}
+				}
 			}
 		}
 	}
